@@ -149,28 +149,8 @@ class GeneratorCall:
         return hash((id(self.gen), self.params))
 
 
-def run(call: GeneratorCall) -> Module:
-    """Run Generator-function-call `call`. Returns the generated Module."""
-
-    # First and foremost - caching.
-    # See if we've already run this generator-parameters combo.
-    the_cache = Generator.Cache
-    if call.gen.enable_cache:
-        cached_result = the_cache.done.get(call, None)
-        if cached_result is not None:
-            return cached_result
-
-    # Add to the call stack.
-    # This is helpful even if (especially if) we find it's a circular dependency next.
-    the_cache.stack.append(call)
-
-    if call.gen.enable_cache:
-        # Check for circular dependencies.
-        # Note this uses a hash-set of `GeneratorCall`s, so only hashable ones get checked.
-        if call in the_cache.pending:
-            msg = f"Invalid self referencing/ circular dependency in `{call}`"
-            raise RuntimeError(msg)
-        the_cache.pending.add(call)
+def _run(call: GeneratorCall) -> Module:
+    """Run the generator-function of `call`, check and name its result."""
 
     # Check that the call has a valid instance of the generator's parameter-class
     if not isinstance(call.params, call.gen.Params):
@@ -197,6 +177,41 @@ def run(call: GeneratorCall) -> Module:
 
     # Give the result a reference back to the generating `Call`
     m._generated_by = call
+    return m
+
+
+def run(call: GeneratorCall) -> Module:
+    """Run Generator-function-call `call`. Returns the generated Module."""
+
+    # First and foremost - caching.
+    # See if we've already run this generator-parameters combo.
+    the_cache = Generator.Cache
+    if call.gen.enable_cache:
+        cached_result = the_cache.done.get(call, None)
+        if cached_result is not None:
+            return cached_result
+
+    # Add to the call stack.
+    # This is helpful even if (especially if) we find it's a circular dependency next.
+    the_cache.stack.append(call)
+
+    if call.gen.enable_cache:
+        # Check for circular dependencies.
+        # Note this uses a hash-set of `GeneratorCall`s, so only hashable ones get checked.
+        if call in the_cache.pending:
+            the_cache.stack.pop()
+            msg = f"Invalid self referencing/ circular dependency in `{call}`"
+            raise RuntimeError(msg)
+        the_cache.pending.add(call)
+
+    try:
+        m = _run(call)
+    except:
+        # Failed calls are not cached, and are no longer pending. They can be run again.
+        the_cache.stack.pop()
+        if call.gen.enable_cache:
+            the_cache.pending.discard(call)
+        raise
 
     # Store the result in our cache, and on the Call.
     the_cache.stack.pop()
